@@ -1,6 +1,8 @@
 //! C16 — serialisation round trip preserves contents and future behaviour.  The format is the positional token format
 //! of `tok.rs`; states have concrete shapes and symbolic values; both copies are driven through the same symbolic
-//! continuation.
+//! continuation.  The `c16_sd_*` harnesses repeat the smallest states through the self-describing format of `toksd.rs`
+//! (structs as name-keyed maps, enums tagged by variant name, `null`, one number type) — the data model the property
+//! quantifies over, where serde attributes such as `untagged`, `flatten`, `skip` or `rename` show their effect.
 use crate::gen::{same_bytes, same_str, string_shaped, Bytes};
 use crate::sym;
 use crate::tok::{from_tokens, to_tokens};
@@ -158,25 +160,6 @@ pub fn c16_cip_and_flatstack() {
     sym::forget((orig, copy, twin));
 }
 
-// @h prop=C16 tier=thorough kind=proof engine=paths mem=16 memw=16 timeout=1500 inst="ColumnsRegion<MirrorRegion<u8>>" bounds="one stored row of 1 symbolic cell; continuation: a 2-cell row" desc="rows read identically; the continuation row (wider than all before) gets the same index and cells"
-#[cfg(feature = "thorough")]
-#[cfg_attr(kani, kani::proof, kani::unwind(8))]
-pub fn c16_columns() {
-    type R = ColumnsRegion<MirrorRegion<u8>>;
-    let a = Bytes::<3>::any_len(1);
-    let c = Bytes::<3>::any_len(2);
-    let mut orig = R::default();
-    let ia = orig.push(a.as_slice());
-    let t = to_tokens(&orig);
-    let mut copy: R = from_tokens(&t);
-    assert!(copy.index(ia).len() == 1 && copy.index(ia).get(0) == a.buf[0], "C16: row reads differently on the copy");
-    let io = orig.push(c.as_slice());
-    let ic = copy.push(c.as_slice());
-    assert!(io == ic && copy.index(ic).len() == 2 && copy.index(ic).get(1) == c.buf[1], "C16: continuation row differs on the copy");
-    cover!(true, "end reached");
-    sym::forget((orig, copy));
-}
-
 // @h prop=C16 tier=quick kind=proof inst="SliceRegion<MirrorRegion<u8>>, OwnedRegion<u8>, StringRegion" bounds="two stored items each (2 and 1 elements / shapes [2],[3]); one continuation push" desc="issued indices read identically; same continuation index and item"
 #[cfg_attr(kani, kani::proof, kani::unwind(8))]
 pub fn c16_slice_owned_string() {
@@ -231,4 +214,49 @@ pub fn c16_option_result_tuple() {
     assert!(t1.push((q.as_str(), u)) == t2.push((q.as_str(), u)), "C16: tuple continuation index differs");
     cover!(true, "end reached");
     sym::forget((o1, o2, r1, r2, t1, t2));
+}
+
+fn sd_stride_roundtrip(orig: Stride) {
+    let t = crate::toksd::to_tokens(&orig);
+    let mut copy: Stride = crate::toksd::from_tokens(&t);
+    assert!(copy == orig, "C16: Stride deserialised from a self-describing format differs from the original");
+    let mut o = orig;
+    let x = sym::usize();
+    let a = o.push(x);
+    let b = copy.push(x);
+    assert!(a == b && o == copy, "C16: Stride deserialised from a self-describing format answers the next push differently");
+    cover!(a, "continuation accepted");
+}
+
+// @h prop=C16 tier=quick kind=proof unwindset="memcmp:40" memw=3 inst="Stride (Empty, Zero, Striding(s,3), Saturated(s,3,r)) through the self-describing token format" bounds="symbolic variant, stride s (s*2 does not overflow) and repetitions r; one symbolic continuation push" desc="every variant survives a format in which enums are tagged by variant name and unit variants are bare names; same answer to the next push"
+#[cfg_attr(kani, kani::proof, kani::unwind(4))]
+pub fn c16_sd_stride() {
+    let s = sym::usize();
+    let r = sym::usize();
+    sym::assume(s <= usize::MAX / 2 && r >= 1 && r <= isize::MAX as usize);
+    let which = sym::u8();
+    let orig = match which & 3 {
+        0 => Stride::Empty,
+        1 => Stride::Zero,
+        2 => Stride::Striding(s, 3),
+        _ => Stride::Saturated(s, 3, r),
+    };
+    sd_stride_roundtrip(orig);
+}
+
+// @h prop=C16 tier=thorough kind=proof unwindset="memcmp:40" timeout=1800 mem=16 memw=10 inst="IndexList<Vec<u32>,Vec<u64>> through the self-describing token format" bounds="state {smol: [a,b], chonk: [c]} with symbolic a,b,c; one symbolic continuation push" desc="structural equality after a round trip through name-keyed maps and delimited sequences; same continuation"
+#[cfg(feature = "thorough")]
+#[cfg_attr(kani, kani::proof, kani::unwind(6))]
+pub fn c16_sd_index_list() {
+    let orig: IndexList<Vec<u32>, Vec<u64>> = IndexList { smol: vec![sym::u32(), sym::u32()], chonk: vec![sym::u64()] };
+    let t = crate::toksd::to_tokens(&orig);
+    let mut copy: IndexList<Vec<u32>, Vec<u64>> = crate::toksd::from_tokens(&t);
+    assert!(copy == orig, "C16: IndexList deserialised from a self-describing format differs from the original");
+    let mut o = orig;
+    let x = sym::usize();
+    o.push(x);
+    copy.push(x);
+    assert!(o == copy && o.len() == 4 && copy.index(3) == x, "C16: IndexList deserialised from a self-describing format continues differently");
+    cover!(true, "end reached");
+    sym::forget((o, copy));
 }
